@@ -43,6 +43,11 @@ class C08(Property):
              (REC, "Record.clear_candidate_clusters"), (REC, "Record.clear_protoclusters"),
              (REC, "Record.get_cds_features"), (REC, "Record.get_cds_by_name"),
              (REC, "Record.get_cds_features_within_regions"), (REC, "Record.add_feature"),
+             ("antismash/common/secmet/qualifiers/gene_functions.py", "GeneFunctionAnnotations.__init__"), ("antismash/common/secmet/qualifiers/gene_functions.py", "GeneFunctionAnnotations.add"),
+             ("antismash/common/secmet/qualifiers/gene_functions.py", "GeneFunctionAnnotations.clear"), ("antismash/common/secmet/qualifiers/gene_functions.py", "GeneFunctionAnnotations.get_by_function"),
+             ("antismash/common/secmet/qualifiers/gene_functions.py", "GeneFunctionAnnotations.get_by_tool"), ("antismash/common/secmet/qualifiers/gene_functions.py", "GeneFunctionAnnotations.__iter__"),
+             ("antismash/common/secmet/qualifiers/gene_functions.py", "GeneFunctionAnnotations.__len__"), ("antismash/common/secmet/qualifiers/gene_functions.py", "_GeneFunctionAnnotation.__eq__"),
+             (FEAT + "cds_feature.py", "CDSFeature.strip_antismash_annotations"),
              (FEAT + "cdscollection.py", "CDSCollection.__init__"),
              (FEAT + "cdscollection.py", "CDSCollection.__contains__"),
              (FEAT + "cdscollection.py", "_CDSCache.__contains__"),
@@ -330,8 +335,8 @@ class C08(Property):
             if loc_key(loc) in seen:
                 continue
             seen.add(loc_key(loc))
-            cores = [p for p in products if rng.random() < 0.4]
-            genes.append({"id": len(genes), "loc": loc, "cores": cores})
+            ann = self.rand_annotation_history(rng, products)
+            genes.append({"id": len(genes), "loc": loc, "ann": ann, "cores": self.carried_cores(ann)})
         genes = genes[:rng.choice([2, 3, 4, 5, 6, 8])]
         with_regions = rng.random() < 0.8
         register_protos = [p["id"] for p in protos if rng.random() < 0.8]
@@ -347,6 +352,33 @@ class C08(Property):
         if rng.random() < 0.5:
             case["ops"] = case["ops2"] = self.with_clears(rng, case)
         return case
+
+    @staticmethod
+    def rand_annotation_history(rng: random.Random, products: List[str]) -> List[List[Any]]:
+        """calls on the gene's GeneFunctionAnnotations before it meets the record: add (function, tool, description,
+           product) and clear (through CDSFeature.strip_antismash_annotations); a third of the genes are annotated,
+           stripped and annotated again (a rerun on an annotated record), identical annotations come back after a strip"""
+        def add() -> List[Any]:
+            fn = rng.choice([1, 1, 1, 2, 0])
+            return ["add", fn, rng.choice(["rules", "smcogs"]), rng.choice(["d1", "d2"]),
+                    rng.choice(products) if fn == 1 or rng.random() < 0.2 else ""]
+        ops = [add() for _ in range(rng.choice([0, 1, 1, 2, 3]))]
+        if rng.random() < 0.35:
+            first = list(ops)
+            ops.append(["clear"])
+            for _ in range(rng.choice([0, 1, 2])):
+                ops.append(rng.choice(first) if first and rng.random() < 0.4 else add())
+        return ops
+
+    @staticmethod
+    def carried_cores(ann: List[List[Any]]) -> List[str]:
+        carried: List[Any] = []
+        for op in ann:
+            if op[0] == "clear":
+                carried = []
+            elif op[1:] not in carried:
+                carried.append(op[1:])
+        return [a[3] for a in carried if a[0] == 1]
 
     @staticmethod
     def with_clears(rng: random.Random, case: Dict[str, Any]) -> List[List[Any]]:
@@ -468,9 +500,29 @@ class C08(Property):
         from antismash.common.secmet.qualifiers.gene_functions import GeneFunction
         from antismash.common.secmet.test.helpers import DummyCDS
         cds = DummyCDS(location=common.make_location(gene["loc"]), locus_tag=f"g{gene['id']}", translation="MMM")
-        for product in gene.get("cores", []):
-            cds.gene_functions.add(GeneFunction.CORE, "tool", "desc", product)
+        if "ann" in gene:
+            for op in gene["ann"]:
+                if op[0] == "clear":
+                    cds.strip_antismash_annotations()
+                else:
+                    cds.gene_functions.add(GeneFunction(op[1]), op[2], op[3], op[4] or None)
+        else:
+            for product in gene.get("cores", []):
+                cds.gene_functions.add(GeneFunction.CORE, "tool", "desc", product)
         return cds
+
+    @staticmethod
+    def annotation_views(cds: Any) -> Dict[str, Any]:
+        """what the gene says it carries, three ways: iteration, the per-function index, the per-tool index"""
+        from antismash.common.secmet.qualifiers.gene_functions import GeneFunction
+
+        def row(a: Any) -> List[Any]:
+            return [a.function.value, a.tool, a.description, a.product or ""]
+        gf = cds.gene_functions
+        return {"iter": [row(a) for a in gf], "len": len(gf),
+                "by_function": {str(f.value): [row(a) for a in gf.get_by_function(f)] for f in GeneFunction
+                                if gf.get_by_function(f)},
+                "by_tool": {t: [row(a) for a in gf.get_by_tool(t)] for t in ("rules", "smcogs") if gf.get_by_tool(t)}}
 
     def run_impl(self, case: Dict[str, Any]) -> Dict[str, Any]:
         if case["f"] == "lookup":
@@ -561,6 +613,7 @@ class C08(Property):
             return out
 
         made = {i: self.make_cds(g) for i, g in genes.items()}     # the objects exist before they are added
+        ann_views = [[i, self.annotation_views(made[i])] for i in sorted(made) if "ann" in genes[i]]
         for step, op in enumerate(ops):
             try:
                 kind = op[0]
@@ -647,7 +700,7 @@ class C08(Property):
         defs = [[p["id"], sorted(gid(c) for c in objs[p["id"]].definition_cdses)] for p in case["protos"]]
         return {"order": [gid(c) for c in rec.get_cds_features()],
                 "children": children, "sections": sections, "region": sorted(region_of), "defs": defs,
-                "regions": regions, "model_ops": model_ops, "log": log,
+                "regions": regions, "model_ops": model_ops, "log": log, "ann_views": ann_views,
                 "areas": [descr[i] for i in sorted(descr)]}
 
     def run_history(self, case: Dict[str, Any]) -> Dict[str, Any]:
@@ -737,7 +790,7 @@ class C08(Property):
             if not ok:
                 corr = False
                 details.append(f"{name} ordering: model {m} vs implementation "
-                               f"{ {k: v for k, v in o.items() if k not in ('model_ops', 'regions', 'areas')} }"[:900])
+                               f"{ {k: v for k, v in o.items() if k not in ('model_ops', 'regions', 'areas', 'ann_views')} }"[:900])
         spec_ok = True
         nontrivial = False
         if scope and "err" not in first and "err" not in second:
@@ -754,6 +807,21 @@ class C08(Property):
                     if v is not None and have.get(i) != v:      # null: the spec does not determine it (not alive)
                         spec_ok = False
                         details.append(f"spec fails on {k} of {i}: expected {v} got {have.get(i)}")
+            views = dict((i, v) for i, v in first.get("ann_views", []))
+            for entry in drv.get("ann", []):
+                v = views.get(entry["id"])
+                if v is None:
+                    continue
+                carried = entry["carried"]
+                want = {"iter": carried, "len": len(carried),
+                        "by_function": {str(f): [a for a in carried if a[0] == f] for f in sorted({a[0] for a in carried})},
+                        "by_tool": {t: [a for a in carried if a[1] == t] for t in sorted({a[1] for a in carried})}}
+                if v != want or entry["cores"] != entry["model_cores"]:
+                    spec_ok = False
+                    details.append(f"gene {entry['id']}: annotations carried after {[g['ann'] for g in case['genes'] if g['id'] == entry['id']]} "
+                                   f"should be {want}, the gene reports {v}")
+                if any(op[0] == "clear" for g in case["genes"] if g["id"] == entry["id"] for op in g["ann"]):
+                    tags.append("stripped-gene")
             bad = [i for i, ok in enumerate(drv.get("log_ok", [])) if not ok]
             if bad or len(drv.get("log_ok", [])) != len(first["log"]):
                 spec_ok = False
